@@ -24,11 +24,11 @@ pub fn ref_stream(d: &Digest, s: usize) -> Option<Vec<(ActId, u32, u64, u8, usiz
 }
 
 fn unsub_calls<'a>(d: &'a Digest, reg: usize) -> Vec<&'a Call> {
-    d.calls.iter().filter(|c| matches!(c.op, OpK::Unsub { reg: r } if r == reg) && c.res != Some(Res::Skipped)).collect()
+    d.idx.unsub_calls.get(&reg).map(|v| v.iter().map(|&c| &d.calls[c]).collect()).unwrap_or_default()
 }
 
 fn regs_of_sub(d: &Digest, sub: usize) -> usize {
-    d.regs.values().filter(|x| x.0 == sub).count()
+    d.idx.nregs.get(&sub).cloned().unwrap_or(0)
 }
 
 pub fn c09_c10(d: &Digest, s: usize, out: &mut Vec<Violation>) {
@@ -36,6 +36,7 @@ pub fn c09_c10(d: &Digest, s: usize, out: &mut Vec<Violation>) {
     let pos = d.inst_positions(s);
     let xret = sd.clean_stop.map(|c| d.calls[c].ret.unwrap());
     let tainted = sd.clean_stop.is_none();
+    let tab = d.inst_table(s);
     for (reg, (sub, st, ci)) in &d.regs {
         if *st != s || regs_of_sub(d, *sub) != 1 {
             continue;
@@ -84,16 +85,16 @@ pub fn c09_c10(d: &Digest, s: usize, out: &mut Vec<Violation>) {
         }
         // ---- C09 (a): notified while registered
         if !tainted {
-            for inst in &sd.insts {
-                if d.notify_exp(inst) != NotifyExp::Must {
+            for (inst, (must, dc_inv, end_bound)) in sd.insts.iter().zip(&tab) {
+                if !*must {
                     continue;
                 }
-                let Some(dc) = d.dispatch_call_of(s, inst.act) else { continue };
-                if !(add_ret < dc.inv) {
+                let Some(dc_inv) = *dc_inv else { continue };
+                if !(add_ret < dc_inv) {
                     continue;
                 }
                 if let Some(u) = u1 {
-                    if u.inv < d.inst_end_bound(s, inst) {
+                    if u.inv < *end_bound {
                         continue;
                     }
                 }
@@ -111,7 +112,7 @@ pub fn c09_c10(d: &Digest, s: usize, out: &mut Vec<Violation>) {
             }
         }
         // ---- C09 (d)/(e): on_unsubscribe exactly once, in time
-        let unsub_evs: Vec<usize> = d.ev.iter().enumerate().filter(|(_, e)| matches!(&e.k, K::Unsub { sub: sb } if sb == sub)).map(|(i, _)| i).collect();
+        let unsub_evs: Vec<usize> = d.idx.unsub_evs.get(sub).cloned().unwrap_or_default();
         let before_shutdown = sd.first_shutdown_inv.map(|f| add_ret < f).unwrap_or(true);
         // ... and not before anybody asked for it
         if let Some(&i) = unsub_evs.first() {
